@@ -52,12 +52,13 @@ CONSTS = {
 OBJ_METHODS = {
     "WFile": {"write", "flush"},
     "RFile": {"read", "readline", "readlines", "close"},
+    "TFile": {"read", "readline", "readlines", "close"},
     "Config": {"get", "getboolean", "getint", "has_option", "set"},
     "Sock": {"recv"},
     "SSLContext": {"wrap_socket", "load_cert_chain"},
     "VFS": {"open", "stat", "isdir", "isfile", "exists", "listdir", "iswritable", "getfspath", "copyto", "unlink"},
 }
-CTX_CLASSES = {"RFile", "WFile", "OpenFile"}
+CTX_CLASSES = {"RFile", "TFile", "WFile", "OpenFile"}
 
 WS_CHARS = [chr(i) for i in range(0x30000) if chr(i).isspace()]
 
@@ -193,7 +194,7 @@ def _oserror_args_now(eng, hint):
 
 
 def ctx_close(eng, ctx):
-    if ctx.cls in ("RFile", "OpenFile"):
+    if ctx.cls in ("RFile", "TFile", "OpenFile"):
         of = eng.ghost.get("open_files")
         if of is not None and ctx in of.items:
             of.items.remove(ctx)
@@ -1028,6 +1029,10 @@ def rfile_readline(eng, world, r, args, kwargs, node):
     if lines is not None:
         r.fields["nlines"] = VInt(z3.simplify(zint(lines.z) + 1))
     return VStr(line, content.isbytes)
+
+
+OBJ_IMPL[("TFile", "read")] = rfile_read
+OBJ_IMPL[("TFile", "readline")] = rfile_readline
 
 
 @objimpl("RFile", "close")
